@@ -138,7 +138,7 @@ def gen_case(rng, tier, flavour):
 
 
 def gen(tier, rng):
-    n = 48 if tier == 'quick' else 600
+    n = 48 if tier == 'quick' else 150
     out = []
     for i in range(n):
         out.append(gen_case(rng, tier, ['mix', 'mix', 'doe', 'solver', 'runs', 'subsolver'][i % 6]))
@@ -227,7 +227,7 @@ def run_parallel(cases, wd, tag):
     jobs = max(1, min(core.NCPU, 8, len(cases)))
     chunks = [cases[j::jobs] for j in range(jobs)]
     with cf.ThreadPoolExecutor(max_workers=jobs) as ex:
-        futs = [ex.submit(run_impl, IMPL, ch, wd, '%s%d' % (tag, j), 1700, 1) for j, ch in enumerate(chunks)]
+        futs = [ex.submit(run_impl, IMPL, ch, wd, '%s%d' % (tag, j), 1100, 1) for j, ch in enumerate(chunks)]
         outs = [f.result() for f in futs]
     if any(o[0] is None for o in outs):
         return None, '\n'.join(o[1] for o in outs)
